@@ -164,6 +164,10 @@ def sym_patterns(desc, get, used_dims):
     return pats
 
 
+class Declined(Exception):
+    """the compiler (here: the op verifier) refuses the input."""
+
+
 def case_alu(case):
     from xdsl.dialects import arith, test
     from xdsl.dialects.builtin import IndexType, IntegerAttr
@@ -196,6 +200,20 @@ def case_alu(case):
         sp = [snax_stream.StridePattern(*p) for p in pats]
         nin = len(d) - 1
         op = snax_stream.StreamingRegionOp([s.results[0] for s in srcs[:nin]], [s.results[0] for s in srcs[nin:]], sp, "snax_alu", Region(Block()))
+        if any(u > len(dd[1]) for u, dd in zip(used_dims, d)):
+            # a pattern with more loops than its own streamer has: the op verifier decides whether it is accepted
+            from xdsl.dialects import builtin
+            from xdsl.utils.exceptions import VerifyException
+
+            argblock.add_ops([s for s in srcs if not isinstance(s, ArgPtr)] + [op])
+            holder = builtin.ModuleOp([acc.generate_acc_op(), test.TestOp(regions=[Region(argblock)])])
+            try:
+                op.verify_()
+            except VerifyException as e:
+                raise Declined(str(e)[:80])
+            finally:
+                for o in list(argblock.ops):
+                    o.detach()
         ops = acc.convert_to_acc_ops(op)
         return acc, pats, srcs, ops
 
@@ -203,6 +221,10 @@ def case_alu(case):
         E = eng()
 
         acc, pats, srcs, ops = build(getbv)
+        E.oblige("verifier:an_accepted_pattern_has_no_more_loops_than_its_streamer", z3.BoolVal(all(u <= len(dd[1]) for u, dd in zip(used_dims, desc))),
+                 dict(used_dims=used_dims, streamer_dims=[len(dd[1]) for dd in desc]))
+        if any(u > len(dd[1]) for u, dd in zip(used_dims, desc)):
+            return
         # precondition of the generator: irrelevant temporal dims carry stride 0
         for k, (t, temp, nsp, opts) in enumerate(desc):
             for i, f in enumerate(temp):
@@ -569,6 +591,13 @@ def run(chk):
         zero = frozenset([rnd.randrange(ns - 1)]) if rnd.random() < 0.25 else frozenset()
         argptr = frozenset(k for k in range(ns) if k not in zero and rnd.random() < 0.4)
         cases.append((desc, used, zero, argptr))
+    # patterns with more loops than their own streamer (but not more than another streamer of the configuration): the
+    # verifier has to refuse them, since the setup has no registers for the extra loops
+    for first, other in ((3, 1), (4, 2), (2, 1), (1, 2)):
+        desc = [("r", "n" * first, 1, []), ("r", "n" * other, 1, []), ("w", "n" * other, 1, [])]
+        big = max(first, other)
+        cases.append((desc, (min(first, big), big, other), frozenset(), frozenset()))
+        cases.append((desc, (first, other, big), frozenset(), frozenset()))
     if only in (None, "alu"):
         chk.add_results("snax_alu_generic_streamers", pmap(case_alu, cases, chunks=2))
     gcases = [(16, 16, 16, False, True), (16, 16, 16, True, True), (8, 8, 8, False, False), (16, 24, 8, True, True), (32, 8, 16, False, True),
